@@ -44,8 +44,11 @@ def coqdtype(dt):
 def gen_pl(rng):
     nf = rng.choice([1, 1, 2, 3, 4, 6])
     names = rng.sample(FNAMES, nf)
-    return {'kind': 'pl', 'fields': [[n, rng.choice(SCALAR)] for n in names], 'len': rng.choice([0, 1, 2, 5, 17]), 'seed': rng.randrange(10 ** 6),
-            'name': rng.choice(['pl', 'my points', 'liste']), 'zeros': rng.random() < 0.15}
+    same = rng.choice(['float64', 'int32', 'float32', 'int64']) if rng.random() < 0.3 else None
+    return {'kind': 'pl', 'fields': [[n, same or rng.choice(SCALAR)] for n in names], 'len': rng.choice([0, 1, 2, 5, 17]), 'seed': rng.randrange(10 ** 6),
+            'name': rng.choice(['pl', 'my points', 'liste']), 'zeros': rng.random() < 0.15,
+            # the records are a multi-field view of a wider structured array: fields sit at gapped, possibly out-of-order offsets
+            'gapped': rng.random() < 0.3}
 
 
 def gen_pla(rng):
@@ -63,8 +66,17 @@ def gen_pla(rng):
                 n = 0
             row.append(n)
         cells.append(row)
-    return {'kind': 'pla', 'dtype': dt, 'shape': shape, 'cells': cells, 'seed': rng.randrange(10 ** 6), 'name': rng.choice(['pla', 'peaks']),
-            'zeros': rng.random() < 0.3}
+    out = {'kind': 'pla', 'dtype': dt, 'shape': shape, 'cells': cells, 'seed': rng.randrange(10 ** 6), 'name': rng.choice(['pla', 'peaks']),
+           'zeros': rng.random() < 0.3}
+    if structured and rng.random() < 0.5:
+        # earlier in the same process another PointListArray was saved whose dtype has the same field names and the same record size
+        # but other field types
+        swap = {'float64': 'int64', 'int64': 'float64', 'float32': 'int32', 'int32': 'float32', 'uint8': 'int8', 'int8': 'uint8', 'int16': 'uint16',
+                'uint16': 'float16', 'float16': 'int16', 'uint32': 'float32', 'uint64': 'float64', 'complex64': 'float64', 'complex128': 'complex128', 'bool': 'int8'}
+        pre = [[n, swap.get(t, t)] for n, t in dt]
+        if pre != dt:
+            out['pre_dtype'] = pre
+    return out
 
 
 def mk_struct(fields, n, seed):
@@ -87,10 +99,28 @@ def run_case(c, scratch):
             data = mk_struct(c['fields'], c['len'], c['seed'])
             if c.get('zeros'):
                 data = np.zeros(c['len'], dtype=data.dtype)
+            if c.get('gapped'):
+                names = [f for f, _ in c['fields']]
+                wide = [('pad_a', 'u1')] + [x for f, t in reversed(c['fields']) for x in ((f, t), ('pad_' + f, 'i2'))]
+                big = np.zeros(c['len'], dtype=wide)
+                for f in names:
+                    big[f] = data[f]
+                data = big[names]          # a view: same fields and values, offsets with gaps and in another order
             obj = emdfile.PointList(data=data, name=c['name'])
             out['orig'] = {'len': len(obj), 'fields': [[f, str(data.dtype[f]), tok_of(data[f])] for f in data.dtype.names]}
         else:
             dt = np.dtype([(f, t) for f, t in c['dtype']]) if isinstance(c['dtype'], list) else np.dtype(c['dtype'])
+            if c.get('pre_dtype'):
+                try:
+                    pdt = np.dtype([(f, t) for f, t in c['pre_dtype']])
+                    pre = emdfile.PointListArray(dtype=pdt, shape=(1, 1), name='earlier')
+                    pre[0, 0].add(np.ones(1, dtype=pdt))
+                    r0 = emdfile.Root(name='r0'); r0.tree(pre)
+                    with core.quiet():
+                        emdfile.save(p + '.pre', r0, mode='o')
+                finally:
+                    if os.path.exists(p + '.pre'):
+                        os.remove(p + '.pre')
             obj = emdfile.PointListArray(dtype=dt, shape=tuple(c['shape']), name=c['name'])
             cells = []
             for i in range(c['shape'][0]):
